@@ -238,6 +238,18 @@ def gen_case(rng, lens, dtype, vclass, mode=None, name=None, recv="fresh"):
 def directed():
     import random
     rng = random.Random(505)
+    # durations (timedelta64, NaT in some rows): the reductions numpy defines for them and the current tree carries out in their own type
+    # (sum, max, min, argmax, argmin, add / maximum / minimum .reduce); mean and the column aggregates go through doubles in the current tree and are left out
+    for lens in ([2, 0, 3, 2], [3, 1], [1, 1, 1, 0], [0, 4, 0]):
+        tot_ = sum(lens)
+        for k_ in range(3):
+            vals_ = [rng.choice([1, 2, 5, 86400, -7, 10 ** 6]) for _ in range(tot_)]
+            if tot_ and k_:
+                vals_[rng.randrange(tot_)] = -2 ** 63          # NaT
+            for name, mode in (("sum", "method"), ("max", "method"), ("min", "np"), ("argmax", "method"), ("argmin", "method"), ("add", "ufunc.reduce"), ("maximum", "ufunc.reduce"), ("minimum", "ufunc.reduce"), ("sum", "keepdims")):
+                if name in ("argmax", "argmin") and k_:
+                    continue        # (the position of an extremum among NaT is left out, like the position among NaN)
+                yield mk_case(lens, "m8[s]", vals_, mode, name, "small")
     # complex and extended-precision elements: every named reduction in every spelling
     for dtype in gen.DT_EXOTIC:
         for lens in ([2, 0, 3, 1], [0, 4], [3]):
